@@ -1,5 +1,5 @@
 (* C06 — multi-entry containers list every entry, in order, as if inspected alone.
-   Only statements; proofs are in Proofs/Containers.v.
+   Only statements; proofs are in Proofs/Containers.v and Proofs/ContainersSsh.v.
 
    Library behaviour enters as quantified parameters (never axioms); the correspondence
    check samples each stated hypothesis on every case:
@@ -9,6 +9,7 @@
      describe  parsePEMBlock;  cert_info parseCertificate;  enc_name EncryptionAlgorithm().Name
      secret    java.UnmarshalReader on a SealedObject (secret_ok: consumes exactly the blob) *)
 From WI Require Import Lib.Base Lib.Info Lib.Strings Lib.Time Model.Containers Proofs.Containers.
+From WI Require Import Model.ContainersSsh Proofs.ContainersSsh.
 From WI Require Model.Base64 Model.Dispatch.
 Open Scope N_scope.
 
@@ -164,6 +165,129 @@ Theorem C06_ssh_fields_example :
      toy_key_of key = Ok (bs "ssh-toy", [(bs "Size", dec_of_N (N.of_nat (length (he_b64 e) / 4 * 3)))])).
 Proof. exact (conj example_auth_ok example_hosts_ok). Qed.
 Print Assumptions C06_ssh_fields_example.
+
+(* ---------------- SSH entries down to the bytes of the key blob ---------------- *)
+
+(* key_of is no longer a parameter: key_of_model (Model/ContainersSsh.v) is C02's executable model of
+   ssh.ParsePublicKey (wire readers parseString / parseInt, parseRSA, parseDSA, parseECDSA, parseED25519 of
+   x/crypto v0.28.0) followed by C02's model of the attribute builder (sshPublicKeyAttributes ->
+   cryptoPublicKeyAttributes), of exactly the type the line theorems above expect.  Two library answers remain,
+   as arguments: point_ok (elliptic.Unmarshal's verdict on the point of an ecdsa-sha2-* blob) and other (the
+   recorded answer for algorithm names outside C02's model: sk-*, *-cert-v01, unknown); the theorems hold for ALL
+   of them, `other` is never consulted for the keys they speak of, point_ok only for ecdsa keys (inside skey_ok).
+   The correspondence check evaluates every SSH case with key_of_model and compares it with the library on every
+   base64 field (Run/C06.v key_of_tied, keys_agree, op keyblob).
+
+   Keys are abstract (skey: ssh-rsa e n | ssh-dss p q g y | ecdsa-sha2-nistp256/384/521 point | ssh-ed25519 pk),
+   blob_enc writes the RFC 4253 / 5656 / 8709 blob, the base64 field of the entry is the standard base64 of it.
+   skey_ok (boolean): 32-bit lengths; rsa: e odd, 3 <= e < 2^24; dss: p of 1024 bits; ecdsa: point_ok accepts the
+   point; ed25519: 32 octets.  For EVERY well-formed blob the model of the key parser returns describe_key k. *)
+Theorem C06_key_blob_described : forall point_ok other k, skey_ok point_ok k = true ->
+  key_of_model point_ok other (blob_enc k) = Ok (describe_key k).
+Proof. exact key_of_model_enc. Qed.
+Print Assumptions C06_key_blob_described.
+
+(* For EVERY authorized_keys file whose entries are written field by field around the blob of an abstract key
+   (kaitem_ok: skey_ok, auth_entry_ok, base64 field = base64 of blob_enc k; with an options field the word after the
+   first blank of the line is not the base64 of something that starts with a wire string - first_try_rejected, boolean),
+   every layout of blank and comment lines, LF/CRLF, any number of trailing line endings: the report is exactly the
+   list of per-entry descriptions - "SSH public key", Type, Comment = rest of the line trimmed, the rows of
+   describe_key k - in order.  No key_of parameter and no hypothesis about any library call on rsa/dss/ed25519 keys. *)
+Theorem C06_authorized_keys_bytes : forall point_ok other its le trail,
+  forallb (kaitem_ok point_ok) its = true ->
+  authorized_keys (ssh_auth_lib (key_of_model point_ok other)) (kafile its le trail) =
+    Ok (Info (bs "SSH authorized_keys") [] (map auth_described (kaentries its))).
+Proof. exact authorized_keys_bytes. Qed.
+Print Assumptions C06_authorized_keys_bytes.
+
+(* same for known_hosts: optional marker, (hashed) host patterns, key type, base64 of the blob, up to two comment words *)
+Theorem C06_known_hosts_bytes : forall point_ok other its le trail,
+  forallb (khitem_ok point_ok) its = true ->
+  known_hosts (ssh_hosts_lib (key_of_model point_ok other)) (khfile its le trail) =
+    Ok (Info (bs "SSH known_hosts") [] (map hosts_described (khentries its))).
+Proof. exact known_hosts_bytes. Qed.
+Print Assumptions C06_known_hosts_bytes.
+
+(* "as if inspected alone": the child listed for an entry IS the description the same key gets as a one-line public
+   key file (parsers.go SSHPublicKey = ssh.ParseAuthorizedKey on the whole file + sshPublicKeyAttributes), for
+   every entry: (1) for every public key file "type base64[ comment]" LF with the entry's base64 field and comment
+   (alone_ok: no options field, any key type word, any blanks); (2) in particular for the file made of the entry's own
+   key type word, one blank, its base64 field and its tail; (3) known_hosts: the child is that description with the
+   Hosts row in front. *)
+Theorem C06_ssh_entry_as_alone : forall point_ok other,
+  (forall k e e', akey_entry_ok point_ok k e = true ->
+     alone_ok (ae_b64 e) (trim_space (ae_tail e)) e' = true ->
+     ssh_public_key_file (key_of_model point_ok other) (auth_text e' ++ [10]) = Ok (auth_described (k, e))) /\
+  (forall k e, akey_entry_ok point_ok k e = true ->
+     ssh_public_key_file (key_of_model point_ok other) (auth_text (alone_entry e) ++ [10]) = Ok (auth_described (k, e))) /\
+  (forall k e e', hkey_entry_ok point_ok k e = true ->
+     alone_ok (he_b64 e) (join [32] (map snd (he_comment e))) e' = true ->
+     exists alone,
+       ssh_public_key_file (key_of_model point_ok other) (auth_text e' ++ [10]) = Ok alone /\
+       hosts_described (k, e) = Info ssh_key_desc (hosts_attr (he_hosts e) :: i_attrs alone) []).
+Proof. exact ssh_entry_as_alone. Qed.
+Print Assumptions C06_ssh_entry_as_alone.
+
+(* non-vacuity: an authorized_keys file (comment line, an ssh-rsa entry, a blank line, an ssh-ed25519 entry behind an
+   options field with a quoted blank) and a known_hosts file (two hosts + rsa key + two comment words, comment line,
+   @revoked hashed host + ed25519 key) meet the hypotheses with point_ok = nothing; the descriptions are the
+   expected ones (toy 12-bit modulus) *)
+Example C06_ssh_bytes_example :
+  forallb (kaitem_ok no_points) ex_auth_file = true /\ forallb (khitem_ok no_points) ex_hosts_file = true /\
+  map (fun ke => fst (describe_key (fst ke))) (kaentries ex_auth_file) = [bs "ssh-rsa"; bs "ssh-ed25519"] /\
+  map auth_described (kaentries ex_auth_file) =
+    [Info (bs "SSH public key") [(bs "Type", bs "ssh-rsa"); (bs "Comment", bs "me@host");
+                                 (bs "Algorithm", bs "RSA"); (bs "Size", bs "12 bits")] [];
+     Info (bs "SSH public key") [(bs "Type", bs "ssh-ed25519"); (bs "Comment", bs "two words");
+                                 (bs "Algorithm", bs "EdDSA"); (bs "Curve", bs "Ed25519")] []].
+Proof. exact ex_files_ok. Qed.
+Print Assumptions C06_ssh_bytes_example.
+
+(* what the key parser refuses, and what that means for the file.  The model of ssh.ParsePublicKey + attribute
+   builder returns a key or an error on EVERY octet string - never a panic (unless the fallback `other` panics) -
+   and so do the modelled line parsers over any key parser that never panics. *)
+Theorem C06_key_parser_never_panics : forall point_ok other,
+  (forall b s, other b <> Panic s) ->
+  (forall blob s, key_of_model point_ok other blob <> Panic s) /\
+  (forall chunk, is_panic (ssh_auth_lib (key_of_model point_ok other) chunk) = false /\
+                 is_panic (ssh_hosts_lib (key_of_model point_ok other) chunk) = false).
+Proof. exact key_parser_never_panics. Qed.
+Print Assumptions C06_key_parser_never_panics.
+
+(* any octets after the last field of a well-formed blob: refused, for every key and every junk *)
+Theorem C06_key_blob_trailing_rejected : forall point_ok other k x r, skey_ok point_ok k = true ->
+  key_of_model point_ok other (blob_enc k ++ x :: r) = Err "ssh: trailing junk in public key".
+Proof. exact key_of_model_trailing. Qed.
+Print Assumptions C06_key_blob_trailing_rejected.
+
+(* a well-formed known_hosts line whose key blob the key parser refuses is refused with that error (for EVERY key
+   parser: the line parser hands it exactly the decoded base64 field) ... *)
+Theorem C06_known_hosts_line_rejected : forall key_of e key err,
+  hosts_entry_ok e = true ->
+  Base64.std_decode Base64.Std (he_b64 e) = Some key -> key_of key = Err err ->
+  ssh_hosts_lib key_of (hosts_text e) = Err err.
+Proof. exact hosts_lib_rejected. Qed.
+Print Assumptions C06_known_hosts_line_rejected.
+
+(* ... and a known_hosts file that holds such a line (LF or CRLF), whatever its other lines are, is an error as a
+   whole - never a partial listing *)
+Theorem C06_known_hosts_bad_blob_is_error : forall key_of data e key err (crlf : bool),
+  (forall b s, key_of b <> Panic s) ->
+  In (hosts_text e ++ (if crlf then [13] else [])) (split_lf data) ->
+  hosts_entry_ok e = true -> Base64.std_decode Base64.Std (he_b64 e) = Some key -> key_of key = Err err ->
+  exists e', known_hosts (ssh_hosts_lib key_of) data = Err e'.
+Proof. exact known_hosts_bad_blob. Qed.
+Print Assumptions C06_known_hosts_bad_blob_is_error.
+
+(* instance, about the bytes: an entry whose base64 field is a well-formed key blob followed by any octets *)
+Theorem C06_known_hosts_trailing_is_error : forall point_ok other data k junk e (crlf : bool),
+  (forall b s, other b <> Panic s) ->
+  In (hosts_text e ++ (if crlf then [13] else [])) (split_lf data) ->
+  skey_ok point_ok k = true -> junk <> [] -> bytes_ok junk = true ->
+  hosts_entry_ok e = true -> he_b64 e = Base64.encode Base64.Std (blob_enc k ++ junk) ->
+  exists e', known_hosts (ssh_hosts_lib (key_of_model point_ok other)) data = Err e'.
+Proof. exact known_hosts_trailing_is_error. Qed.
+Print Assumptions C06_known_hosts_trailing_is_error.
 
 (* ---------------- PEM bundles ---------------- *)
 
